@@ -503,7 +503,7 @@ def _run(ctx, base):
         "bound": bound if in_core(params) else 1,
         "opts": {"time_horizon": 25.0, "drain": 2.0, "max_points": 8000, "free_switch_cost": 1,
                      "time_jump_cost": None if ctx.quick else 1},
-        "budget": 2500 if ctx.quick else 20000,
+        "budget": 2500 if ctx.quick else 8000,
     } for params in scenario_params(ctx.tier)]
     # two threads meet in the service registry / the adoption of services: source-line and
     # loop-iteration granularity for a few valid configurations
